@@ -59,7 +59,7 @@ fn decode(u: &mut Unstructured) -> arbitrary::Result<Case> {
             35..=36 => {
                 let n = (f >> 4) as usize % 8;
                 let pat: Vec<bool> = (0..n).map(|i| (k >> i) & 1 == 1).collect();
-                Op::Iter { list: f & 3, fam: (f >> 2) % 12, pat, clone_at: if f & 0x80 != 0 { 255 } else { k as u8 % 6 }, write: w }
+                Op::Iter { list: f & 3, fam: (f >> 2) % 12, pat, clone_at: if f & 0x80 != 0 { 255 } else { k as u8 % 6 }, write: w, fin: if code / 40 >= 2 { (code / 40).wrapping_mul(53) ^ f.rotate_left(3) ^ (k as u8).wrapping_mul(29) } else { 0 } }
             }
             37 => Op::CloneSwap,
             38 => Op::CloneDrop,
